@@ -227,7 +227,11 @@ def run_check(modname, tier, seed, replay=None):
         problems.extend(mod.minima(rec, tier) or [])
 
     os.makedirs(os.path.join(VERIF, 'evidence'), exist_ok=True)
-    os.makedirs(os.path.join(VERIF, 'replay', cid), exist_ok=True)
+    rdir = os.path.join(VERIF, 'replay', cid)
+    os.makedirs(rdir, exist_ok=True)
+    for fn in os.listdir(rdir):
+        if fn.startswith('%d-' % seed):
+            os.unlink(os.path.join(rdir, fn))
     replay_paths = []
     seen_sigs = set()
     for i, (sig, wit) in enumerate(unlisted):
